@@ -44,6 +44,7 @@ var c04 = gen.Register(&gen.Check[caseC04]{
 	},
 	Required: []string{"p:identity", "odd-y", "even-y"},
 	Run: func(c caseC04, o *gen.Obs) error {
+		hostileCaller()
 		b, err := pt.Build(c.P)
 		if err != nil {
 			o.Class("skipped:builder-error")
